@@ -53,7 +53,8 @@ TrEnd == /\ l <= NRec /\ Ev.ev = "end" /\ Ev.thread \in Threads
 
 TrPyEnd == /\ l <= NRec /\ Ev.ev = "py_end" /\ Ev.thread \in Threads
            /\ CASE Ev.res = "ok" /\ Ev.arr = "pretok" -> Analysis(Ev.thread, Ev.text, Ev.val = ptOracle[Ev.text])
-                [] Ev.res = "ok" /\ Ev.arr # "pretok" -> Analysis(Ev.thread, Ev.text, Ev.val = First5(oracle[<<Ev.text, Ev.mode>>]))
+                [] Ev.res = "ok" /\ Ev.arr = "pretok_handler" -> Analysis(Ev.thread, Ev.text, Ev.val = ptOracle[100000 + Ev.text])   \* the handler variant's own reference
+                [] Ev.res = "ok" /\ Ev.arr \notin {"pretok", "pretok_handler"} -> Analysis(Ev.thread, Ev.text, Ev.val = First5(oracle[<<Ev.text, Ev.mode>>]))
                 [] Ev.res = "refused" -> /\ Variant = "guarded_shared" /\ Ev.arr = "shared"        \* the exclusive borrow refused a concurrent use
                                          /\ runs' = [runs EXCEPT ![Ev.thread] = @ + 1]
                                          /\ UNCHANGED <<phase, dict, frozenAt, pc, cur, reads, scratch, tokOf, done, busy>>
